@@ -6,5 +6,6 @@ POSTCONDITION Accepted
 INVARIANT TypeOK
 INVARIANT LengthsAndChecksumsOK
 INVARIANT ParseRecovers
+INVARIANT StructuredOptionsOK
 INVARIANT ReserialiseSame
 CHECK_DEADLOCK FALSE
